@@ -199,7 +199,11 @@ pub fn read_line_at(b: &[u8], skip: bool, hash: bool, pre: usize, post: usize) -
     let res = std::panic::catch_unwind(|| { let mut c = Cursor::new(&buf[..]); c.set_position(pre as u64); let r = slippi::read(&mut c, Some(&o)); (r, c.position()) });
     match res { Err(_) => "panic".to_string(), Ok((Err(e), _)) => format!("err {}", e), Ok((Ok(g), pos)) => {
         match std::panic::catch_unwind(std::panic::AssertUnwindSafe(|| dump::summary(&g))) {
-            Ok(mut s) => { if hash { s = s.replace("hashed=none", &format!("hashed=(some {})", b.len())); } if pos as usize != pre + b.len() { s.push_str(&format!(" endpos={}!={}", pos, pre + b.len())); } s }
+            Ok(mut s) => { if hash { s = s.replace("hashed=none", &format!("hashed=(some {})", b.len())); } if pos as usize != pre + b.len() { s.push_str(&format!(" endpos={}!={}", pos, pre + b.len())); }
+                // the hash covers the bytes consumed, not what lies before the replay in the source
+                let want = if hash { Some(format!("xxh3:{:016x}", xxhash_rust::xxh3::xxh3_64(b))) } else { None };
+                if g.hash != want { s.push_str(&format!(" hash={:?}!={:?}", g.hash, want)); }
+                s }
             Err(_) => "panic-in-dump".to_string() } } }
 }
 
@@ -277,7 +281,7 @@ fn read(rng: &mut Rng, ctx: &mut Ctx) {
                 let (zero, _) = read_line(&b, skip, hsh);
                 let mut c = Case::new(read_cmd(skip, hsh, &b), at.clone()); c.tags = vec![format!("offset-read skip{} hash{}", skip as u8, hsh as u8)];
                 if at != zero { let msg = format!("read from stream position {} (skip={}, hash={}) differs from the read at position 0: {} vs {}", pre, skip, hsh, &at[..at.len().min(120)], &zero[..zero.len().min(120)]);
-                    if skip { c.fail("C10", msg.clone()); } if hsh { c.fail("C11", msg.clone()); } if !skip { c.fail("C01", msg.clone()); c.fail("C04", msg.clone()); } c.fail("C12", msg); }
+                    if skip { c.fail("C10", msg.clone()); } if hsh { c.fail("C11", msg.clone()); } if !skip { c.fail("C01", msg.clone()); c.fail("C04", msg.clone()); } c.fail("C05", msg.clone()); c.fail("C12", msg); }
                 ctx.push(c);
             }
         }
@@ -391,8 +395,19 @@ fn arrow(rng: &mut Rng, ctx: &mut Ctx) {
                 for i in 0..len { let t = fw.transpose_one(i, ver);
                     if let Err(e) = compare_view(&t, &fw, i) { win_err = Some(format!("window [{}..{}) of the exported array, row {}: {}", from, n, i, e)); break; }
                     if format!("{:?}", t) != format!("{:?}", f2.transpose_one(from + i, ver)) { win_err = Some(format!("window [{}..{}) of the exported array: row {} differs from row {} of the whole game", from, n, i, from + i)); break; } } }
-            let g2 = Game { start, end, frames: f2, metadata: md, gecko_codes: gc, hash: None, quirks: q };
+            let mut g2 = Game { start, end, frames: f2, metadata: md, gecko_codes: gc, hash: None, quirks: q };
             let mut o = vec![]; let w = slippi::write(&mut o, &g2);
+            // a frame table whose ports are listed in another order (built by a user, not by a reader): export / import keeps the order
+            if g2.frames.ports.len() >= 2 && k % 3 == 1 {
+                g2.frames.ports.reverse(); let mut pr: Vec<_> = ports.iter().rev().cloned().collect(); if k % 2 == 0 { pr.rotate_left(1); g2.frames.ports.rotate_left(1); }
+                let mut want = vec![]; let ww = slippi::write(&mut want, &g2);
+                let order: Vec<u8> = g2.frames.ports.iter().map(|p| p.port as u8).collect();
+                let sa2 = std::mem::replace(&mut g2.frames, im::Frame::from_struct_array(sa.clone(), ver)).into_struct_array(ver, &pr);
+                let back = im::Frame::from_struct_array(sa2, ver);
+                let order2: Vec<u8> = back.ports.iter().map(|p| p.port as u8).collect();
+                g2.frames = back; let mut got = vec![]; let wg = slippi::write(&mut got, &g2);
+                if order2 != order || ww.is_ok() != wg.is_ok() || (ww.is_ok() && want != got) { win_err = Some(format!("ports listed as {:?}: after export and import they are {:?} / the written file differs", order, order2)); }
+            }
             if let Some(e) = win_err { return Err(format!("WINDOW {}", e)); }
             Ok::<_, String>((d, w.is_ok() && o == b, rows == n, lv))
         });
